@@ -39,6 +39,9 @@ def cases(tier, seed):
         for nref in range(0, 4):
             out.append(dict(kind="enum", seed=seed * 31 + b, refuse=nref, cut=["time", 0.0]))
             out.append(dict(kind="enum", seed=seed * 31 + b, refuse=nref, cut=None, blackhole_then_close=True))
+            # connect failures delivered synchronously (the endpoint's Deferred has fired before it is returned)
+            out.append(dict(kind="enum", seed=seed * 31 + b, refuse=nref + 1, sync=True, cut=["time", 0.0]))
+            out.append(dict(kind="enum", seed=seed * 31 + b, refuse=nref + 1, sync=True, cut=None, close_in_backoff=True))
     return out
 
 
@@ -47,6 +50,11 @@ def enum_scenario(spec):
     rng = random.Random(spec["seed"])
     variant = dict(n_req=3, latency=0.0, chunk="whole", end="heal")
     connect = ["accept"] + ["refuse"] * spec.get("refuse", 0) + ["accept"] * 6
+    if spec.get("sync"):
+        connect = ["refuse_sync" if k % 2 == 0 else "refuse" for k in range(spec.get("refuse", 0))] + ["accept"] * 6
+    if spec.get("close_in_backoff"):
+        connect = ["refuse_sync"] * 12
+        variant["end"] = "close"
     if spec.get("blackhole_then_close"):
         connect = ["refuse"] * spec.get("refuse", 0) + ["blackhole"]
         variant["end"] = "close"
